@@ -1,21 +1,21 @@
-\* C02 exhaustive: 1 connection, <=3 chunks each way, every order of speaking / half-closing / copy-loop interleaving
+\* C02 exhaustive: 1 connection, back-pressure: a receiver may stop reading for any time (clock beyond the handshake timeout)
 SPECIFICATION Spec
 CONSTANTS
   Conns = {1}
   HsKinds = {"valid"}
   TgtKinds = {"ok"}
-  MaxC = 3
-  MaxT = 3
-  MaxTok = 7
+  MaxC = 2
+  MaxT = 2
+  MaxTok = 5
   AllowBad = FALSE
-  AllowSplit = TRUE
+  AllowSplit = FALSE
   AllowRst = FALSE
   AllowTClose = FALSE
   AllowCRst = FALSE
-  AllowPause = FALSE
+  AllowPause = TRUE
   Planned = FALSE
   Timeout = 2
-  MaxNow = 0
+  MaxNow = 3
   DrainMode = "inner"
   Strict = FALSE
   WithServe = FALSE
